@@ -243,12 +243,14 @@ Qed.
 Lemma out_eqb_eq a b : out_eqb a b = true -> a = b.
 Proof.
   unfold out_eqb. rewrite !andb_true_iff.
-  intros [[[[[[[[[H1 H2] H3] H4] H5] H6] H7] H8] H9] H10].
+  intros [[[[[[[[[[[[[[[H1 H2] H3] H4] H5] H6] H7] H8] H9] H10] H11] H12] H13] H14] H15] H16].
   destruct a, b; cbn in *.
+  apply list_eqb_eq in H14. apply Bool.eqb_prop in H15. apply Nat.eqb_eq in H16.
   apply Bool.eqb_prop in H9. apply Nat.eqb_eq in H10.
+  apply Bool.eqb_prop in H11. apply Bool.eqb_prop in H12. apply list_eqb_eq in H13.
   apply rc_eqb_eq in H1. apply Nat.eqb_eq in H2. apply list_eqb_eq in H3.
   apply Bool.eqb_prop in H4. apply list_eqb_eq in H5. apply list_eqb_eq in H6.
-  apply Bool.eqb_prop in H7. apply list_eqb_eq in H8. congruence.
+  apply Bool.eqb_prop in H7. apply list_eqb_eq in H8. subst. reflexivity.
 Qed.
 
 Lemma incl_b_spec a b : incl_b a b = true <-> (forall r, In r a -> In r b).
@@ -314,7 +316,7 @@ Section Readings.
   Proof.
     intros Hh. pose proof (wf_good sc WF f) as G. unfold good in G. fold o in G. rewrite Hh in G.
     unfold good_ok in G. rewrite !andb_true_iff in G.
-    destruct G as [[[[[G1 G2] G3] G4] G5] _].
+    destruct G as [[[[[[G1 G2] G3] G4] G5] _] _].
     apply rc_eqb_eq in G1. apply negb_true_iff in G2.
     pose proof (proj1 (same_set_spec _ _) G3) as G3'.
     apply negb_true_iff in G4. apply (proj1 (is_nil_spec _)) in G5. auto.
@@ -328,7 +330,7 @@ Section Readings.
   Proof.
     intros Hh. pose proof (wf_good sc WF f) as G. unfold good in G. fold o in G. rewrite Hh in G.
     unfold good_fail in G. rewrite !andb_true_iff in G.
-    destruct G as [[[[[G1 G2] G3] G4] G5] _].
+    destruct G as [[[[[[[[G1 G2] G3] G4] G5] _] _] _] _].
     apply negb_true_iff in G2. apply negb_true_iff in G4. apply (proj1 (is_nil_spec _)) in G5.
     split; [|split; [exact G2|split; [|split; [exact G4|exact G5]]]].
     - intros Hr. rewrite Hr in G1. apply rc_eqb_eq in G1. exact G1.
@@ -358,13 +360,23 @@ Definition holds (sc : scn) (f : nat -> bool) : Prop :=
      o_rc o = Ok /\ o_bad o = false /\ (forall r, In r (o_live o) <-> In r (s_owns sc)) /\
      o_dbad o = false /\ o_dlive o = [] /\
      (* every stored value is released by destroy (exactly once: a second release is a double free = o_dbad) *)
-     o_freed o = length (s_values sc)) /\
+     o_freed o = length (s_values sc) /\
+     (* the object stays usable: the continued use (more operations, beyond the old capacity) succeeds *)
+     o_cont_ok o = true) /\
   (hit f (o_att o) = true ->
      (s_reports sc = true -> o_rc o = Fail) /\ o_bad o = false /\
      (s_retains sc = false -> forall r, In r (o_live o) <-> In r (o_base o)) /\
      o_dbad o = false /\ o_dlive o = [] /\
-     (* safe to retry: the retried operation succeeds and destroy then releases every value *)
-     (s_retry sc = true -> o_retry_ok o = true /\ o_freed o = length (s_values sc))).
+     (* safe to retry (future B): the retried operation succeeds, the object is used further, and destroy then
+        releases everything - every stored value, nothing live, no crash / double free *)
+     (s_retry sc = true -> o_retry_ok o = true /\ o_rfreed o = length (s_values sc) /\
+                           o_rdbad o = false /\ o_rdlive o = []) /\
+     (* the failed call changed nothing: what was live before is still live and still pointed to by its field *)
+     (s_retains sc = false -> o_kept o = true) /\
+     (* ... and after the retry the object stays usable (continued use succeeds) *)
+     o_cont_ok o = true /\
+     (* safe to destroy (future A): the destroy that follows the failure directly releases every stored value *)
+     (s_dfail sc = true -> o_freed o = length (s_values sc))).
 
 Lemma rc_eqb_refl a : rc_eqb a a = true.
 Proof. destruct a; reflexivity. Qed.
@@ -373,16 +385,19 @@ Lemma holds_good sc f : holds sc f -> good sc f (run_scn sc f) = true.
 Proof.
   unfold holds, good. cbv zeta. intros [H0 H1].
   destruct (hit f (o_att (run_scn sc f))).
-  - destruct (H1 eq_refl) as [A [B [C [D [E F]]]]]. unfold good_fail.
+  - destruct (H1 eq_refl) as [A [B [C [D [E [F [K [CO DF]]]]]]]]. unfold good_fail.
     rewrite !andb_true_iff. repeat split.
     + destruct (s_reports sc); [rewrite A by reflexivity; reflexivity|reflexivity].
     + rewrite B. reflexivity.
     + destruct (s_retains sc); [reflexivity|]. apply same_set_spec. apply C. reflexivity.
     + rewrite D. reflexivity.
     + rewrite E. reflexivity.
-    + destruct (s_retry sc); [|reflexivity]. destruct (F eq_refl) as [F1 F2].
-      rewrite F1. unfold freed_all. rewrite F2. apply Nat.eqb_refl.
-  - destruct (H0 eq_refl) as [A [B [C [D [E F]]]]]. unfold good_ok.
+    + destruct (s_retry sc); [|reflexivity]. destruct (F eq_refl) as [F1 [F2 [F3 F4]]].
+      rewrite F1, F3, F4. unfold rfreed_all. rewrite F2. rewrite Nat.eqb_refl. reflexivity.
+    + destruct (s_retains sc); [reflexivity|]. apply K. reflexivity.
+    + exact CO.
+    + destruct (s_dfail sc); [|reflexivity]. unfold freed_all. rewrite (DF eq_refl). apply Nat.eqb_refl.
+  - destruct (H0 eq_refl) as [A [B [C [D [E [F CO]]]]]]. unfold good_ok.
     rewrite !andb_true_iff. repeat split.
     + rewrite A. reflexivity.
     + rewrite B. reflexivity.
@@ -390,25 +405,28 @@ Proof.
     + rewrite D. reflexivity.
     + rewrite E. reflexivity.
     + unfold freed_all. rewrite F. apply Nat.eqb_refl.
+    + exact CO.
 Qed.
 
 Lemma good_holds sc f : good sc f (run_scn sc f) = true -> holds sc f.
 Proof.
   unfold holds, good. cbv zeta. intros G. split; intros Hh; rewrite Hh in G.
   - unfold good_ok in G. rewrite !andb_true_iff in G.
-    destruct G as [[[[[G1 G2] G3] G4] G5] G6].
+    destruct G as [[[[[[G1 G2] G3] G4] G5] G6] G7].
     apply rc_eqb_eq in G1. apply negb_true_iff in G2.
     pose proof (proj1 (same_set_spec _ _) G3) as G3'.
     apply negb_true_iff in G4. apply (proj1 (is_nil_spec _)) in G5.
-    apply Nat.eqb_eq in G6. auto 10.
+    apply Nat.eqb_eq in G6. auto 12.
   - unfold good_fail in G. rewrite !andb_true_iff in G.
-    destruct G as [[[[[G1 G2] G3] G4] G5] G6].
+    destruct G as [[[[[[[[G1 G2] G3] G4] G5] G6] G7] G8] G9].
     apply negb_true_iff in G2. apply negb_true_iff in G4. apply (proj1 (is_nil_spec _)) in G5.
-    split; [|split; [exact G2|split; [|split; [exact G4|split; [exact G5|]]]]].
+    split; [|split; [exact G2|split; [|split; [exact G4|split; [exact G5|split; [|split; [|split; [exact G8|]]]]]]]].
     + intros Hr. rewrite Hr in G1. apply rc_eqb_eq in G1. exact G1.
     + intros Hr. rewrite Hr in G3. exact (proj1 (same_set_spec _ _) G3).
-    + intros Hr. rewrite Hr in G6. apply andb_prop in G6. destruct G6 as [R1 R2].
-      apply Nat.eqb_eq in R2. split; assumption.
+    + intros Hr. rewrite Hr in G6. rewrite !andb_true_iff in G6. destruct G6 as [[[R1 R2] R3] R4].
+      apply Nat.eqb_eq in R2. apply negb_true_iff in R3. apply (proj1 (is_nil_spec _)) in R4. auto.
+    + intros Hr. rewrite Hr in G7. exact G7.
+    + intros Hr. rewrite Hr in G9. apply Nat.eqb_eq in G9. exact G9.
 Qed.
 
 (* MAIN: a scenario accepted by the checker satisfies the property under EVERY fault function *)
